@@ -2,14 +2,14 @@
 # usage: try_mutant.sh <patch.diff> <prop> [<prop>...]
 # Applies a seeded change to /repo, runs the named checks (quick tier), reverts. Never commits.
 set -u
-patch="$1"; shift
+patch="$(readlink -f "$1")"; shift
 cd /repo || exit 2
-if ! git diff --quiet; then echo "refusing: /repo has uncommitted changes"; exit 2; fi
+if ! git diff --quiet || ! git diff --cached --quiet; then echo "refusing: /repo has uncommitted changes"; exit 2; fi
 if ! git apply --check "$patch" 2>/dev/null; then
   if git apply --3way --check "$patch" 2>/dev/null; then :; else echo "patch does not apply"; exit 2; fi
 fi
 git apply "$patch" || git apply --3way "$patch"
-trap 'git -C /repo checkout -- . ; git -C /repo status --short | head -3' EXIT
+trap 'git -C /repo reset -q --hard HEAD; git -C /repo status --short | head -3' EXIT
 cd /verif
 for p in "$@"; do
   out=$(VERIF_SCALE=${VERIF_SCALE:-1} ./check "$p" 2>&1); rc=$?
